@@ -11,7 +11,7 @@ HEADER = ('From Coq Require Import List ZArith NArith.\n'
 
 FILES_SMALL = ['empty_triangles.dae', 'empty_triangles_with_multiple_ns.dae', 'trifans.dae', 'tristrips.dae']
 FILES_BIG = ['duck_triangles.dae', 'duck_polylist.dae']
-EXT_KINDS = ['anim', 'clips', 'physmat', 'physmodel', 'physscene', 'force', 'extra', 'extrafx']
+EXT_KINDS = ['anim', 'clips', 'physmat', 'physmodel', 'physscene', 'force', 'extra', 'extrafx', 'dupcams', 'duplights']
 EDITS = ['add_camera', 'add_camera_ortho', 'add_light', 'add_libnode', 'add_material', 'clear_lights',
          'clear_cameras', 'no_default_scene', 'drop_scene_element', 'drop_scene_element']
 EXN_NAME = {1: 'DaeIncomplete', 2: 'DaeBrokenRef', 3: 'DaeMalformed', 4: 'DaeUnsupported', 5: 'DaeSaveValidation',
